@@ -116,27 +116,52 @@ def run_case(c):
     return rec
 
 
+def _family(kind, N):
+    a, b = np.indices((N, N))
+    if kind == "chain":
+        A = np.abs(a - b) == 1
+    elif kind == "ring":
+        A = np.minimum(np.abs(a - b), N - np.abs(a - b)) == 1
+    elif kind == "star":
+        A = ((a == 0) | (b == 0)) & (a != b)
+    else:
+        A = a != b
+    return A.astype(float)
+
+
 def run_chain(c):
-    """A chain of N unit resistors: every current-flow quantity has a closed form."""
+    """A chain / ring / star / complete graph of N unit resistors: every current-flow quantity has a closed form."""
     from pyunicorn.core import ResNetwork
     N = c["N"]
-    R = np.zeros((N, N))
-    idx = np.arange(N - 1)
-    R[idx, idx + 1] = R[idx + 1, idx] = 1.0
+    kind = c.get("kind", "chain")
+    R = _family(kind, N)
     rec = dict(c)
     o = {"exc": ""}
     try:
         net = ResNetwork(R, silence_level=3)
-        o["vcfb"] = [enc.num(net.vertex_current_flow_betweenness(a), 10**4) for a in range(N)]
+        o["vcfb"] = [enc.num(net.vertex_current_flow_betweenness(a)) for a in range(N)]
         E = np.asarray(net.edge_current_flow_betweenness())
-        o["ecfb_chain"] = [enc.num(E[k, k + 1], 10**4) for k in range(N - 1)]
-        pairs = [(0, N - 1), (0, 1), (N // 3, N // 2), (N - 2, 1), (N // 2, N // 2)]
+        links = np.argwhere(np.triu(R) > 0)
+        if len(links) > 400:                      # (complete graphs: every 53rd link and the last)
+            links = np.concatenate([links[::53], links[-1:]])
+        o["links"] = [[int(a), int(b)] for a, b in links]
+        o["ecfb_links"] = [enc.num(E[a, b]) for a, b in links]
+        off = np.abs(E[(R == 0)])
+        o["ecfb_unlinked_max"] = enc.num(off.max() if off.size else 0.0)
+        pairs = [(0, N - 1), (0, 1), (N // 3, N // 2), (N - 2, 1), (N // 2, N // 2), (1, N // 2), (2 % N, N - 1)]
         o["er_pairs"] = [[int(a), int(b)] for a, b in pairs]
         o["er"] = [enc.num(net.effective_resistance(a, b)) for a, b in pairs]
     except Exception as ex:
         o["exc"] = type(ex).__name__
     rec["obs"] = o
     return rec
+
+
+def _families(tier):
+    sizes = {"chain": (5, 150), "ring": (6, 151), "star": (5, 140), "complete": (4, 130)} if tier == "quick" else {
+        "chain": (3, 4, 5, 6, 12, 129, 150, 300), "ring": (3, 4, 5, 6, 60, 129, 151, 300), "star": (3, 4, 5, 6, 129, 257, 300),
+        "complete": (3, 4, 5, 6, 129, 200, 300)}
+    return [{"case": "%s%d" % (k, N), "blk": "family", "kind": k, "N": N} for k in sizes for N in sizes[k]]
 
 
 def _nontrivial(rec):
@@ -158,14 +183,17 @@ def main(ctx):
     ctx.extra["scope"] = open(os.path.join(os.path.dirname(__file__), "..", "spec", cfg + ".cfg")).read().split()
     recs = ctx.run_cases("props.c18.run_case", cases)
     ctx.validate("Val_C18", "Val_C18", recs, nontrivial=_nontrivial)
-    # large circuits: chains of unit resistors (closed forms)
-    chains = [{"case": "chain%d" % N, "N": N} for N in ((5, 150) if ctx.tier == "quick" else (3, 5, 12, 129, 150, 300))]
-    crecs = ctx.run_cases("props.c18.run_chain", chains)
+    # large circuits of unit resistors: chain, ring, star, complete graph (closed forms proved on the small members)
+    crecs = ctx.run_cases("props.c18.run_chain", _families(ctx.tier))
     ctx.validate("Val_C18big", "Val_C18big", crecs, stage="Val_C18big", nontrivial=lambda r: True)
 
 
 def replay(ctx, rep):
     rec = rep["record"]
+    if rec.get("blk") == "family" or str(rec.get("case", "")).startswith("chain"):
+        crecs = ctx.run_cases("props.c18.run_chain", [{k: v for k, v in rec.items() if k != "obs"}], jobs=1)
+        ctx.validate("Val_C18big", "Val_C18big", crecs, stage="Val_C18big", nontrivial=lambda r: True)
+        return
     case = {k: v for k, v in rec.items() if k not in ("events", "complex", "big")}
     recs = ctx.run_cases("props.c18.run_case", [case], jobs=1)
     ctx.validate("Val_C18", "Val_C18", recs, nontrivial=_nontrivial)
